@@ -1,4 +1,7 @@
 import Verif.Proofs.HtmlAttr
+import Verif.Proofs.HtmlRefs
+import Verif.Proofs.HtmlEntTable
+import Verif.Gen.C03Tables
 /-!
 # C03 — HTML minification preserves the parsed document
 
@@ -8,6 +11,8 @@ specifications: `Verif.Spec.HtmlAttr` (HTML standard: attribute tokenisation, ch
 -/
 namespace Verif.Props.C03
 open Verif.Spec.HtmlAttr Verif.Spec.HtmlKnown Verif.Model.HtmlAttr Verif.Proofs.HtmlAttr
+open Verif.Proofs.HtmlRefs Verif.Proofs.HtmlEntTable Verif.Gen
+set_option maxRecDepth 1000000
 
 /-! ## attributes: quoting and escaping (`html.EscapeAttrVal`) -/
 
@@ -61,5 +66,67 @@ example : tokenizeAttr (escapeAttrVal "a\"b'c &amp; d".toList .single true ++ " 
 theorem unquoted_iff (v : List Char) (q : Quote) (must : Bool) :
     (v.all (fun c => !needsQuote c) && (!must || q = .none)) = true → escapeAttrVal v q must = v := by
   intro h; unfold escapeAttrVal; simp only [h, if_true]
+
+/-! ## character references (`parse.ReplaceEntities` with `html.EntitiesMap` / `html.TextRevEntitiesMap`) -/
+
+/-- **entities_table_sound** (whole regenerated tables, linear merge evaluated by the kernel).
+    Every row `name ↦ r` of `html.EntitiesMap`: `name;` is a named character reference of the HTML5 table,
+    and `r` is either the single ASCII byte it denotes (never CR), or a complete decimal reference `&#N;` to its
+    code point, or a complete reference `&name2;` to an alias with the same code points.  Every row
+    `b ↦ q` of `html.TextRevEntitiesMap`: `q` is a complete named reference that denotes the byte `b`. -/
+theorem entities_table_sound :
+    emCheck C03Html5Entities.entities C03Tables.entitiesMap = true ∧
+    revCheck C03Tables.textRevEntitiesMap = true := by
+  constructor <;> decide +kernel
+
+/-- what `html.go` does to the references of a text token (`attr = false`: both maps) or of an attribute value
+    (`attr = true`: `revEntitiesMap = nil`) -/
+def replaceEntitiesCtx (attr : Bool) (raw : List Char) : List Char :=
+  if attr then replaceEntitiesAttr raw else replaceEntitiesText raw
+
+/-- full statement: replacing character references never changes what the text / attribute value decodes to -/
+def entities_preserve_full : Prop :=
+  ∀ (attr : Bool) (raw : List Char), decodeRefs attr (replaceEntitiesCtx attr raw) = decodeRefs attr raw
+
+/-- **entities_preserve_partial.**  For every raw text / raw attribute value outside the three narrow guards
+    (`glue`: K-C03-1, `ctlRef`: K-C03-2, `hexOverflow`: K-C03-3 — see `Spec/HtmlKnown.lean`), the bytes written by
+    `parse.ReplaceEntities` decode — in the same context, by the HTML standard's rules, whatever follows — to
+    exactly the units the input decodes to.  By induction over the text, for all inputs at once. -/
+theorem entities_preserve_partial (attr : Bool) (raw : List Char) (g : refsTrigger raw = false) :
+    decodeRefs attr (replaceEntitiesCtx attr raw) = decodeRefs attr raw := by
+  have hem : EmOk C03Tables.entitiesMap := emCheck_sound _ entities_table_sound.1
+  simp only [refsTrigger, Bool.or_eq_false_iff] at g
+  obtain ⟨⟨hg, hc⟩, ho⟩ := g
+  unfold replaceEntitiesCtx
+  cases attr with
+  | true =>
+    exact replEnt_preserve _ [] hem (fun ch q h => by simp [List.lookup] at h) true _ raw (Nat.le_refl _) hg hc ho
+  | false =>
+    exact replEnt_preserve _ _ hem (revCheck_sound _ entities_table_sound.2) false _ raw (Nat.le_refl _) hg hc ho
+
+/-- non-vacuity: an ordinary text with five kinds of references is outside the guards and is really rewritten -/
+example : refsTrigger "a &amp; b &lt; &#233;&AElig;&quot;".toList = false ∧
+    replaceEntitiesCtx false "a &amp; b &lt; &#233;&AElig;&quot;".toList = "a & b &lt; &#233;&#198;\"".toList := by
+  decide +kernel
+
+/-- **entities_preserve_counterexample** (K-C03-1): `&amp;&#108;t;` becomes `&lt;`, which denotes `<`, while the
+    input denotes the four characters `&lt;`.  The replacements are made one after the other in place, so the
+    second one completes a reference that the input did not contain. -/
+theorem entities_preserve_counterexample : ¬ entities_preserve_full := by
+  intro h
+  exact absurd (h false "&amp;&#108;t;".toList) (by decide +kernel)
+
+/-- the guard `ctlRef` is needed (K-C03-2): `a&#13;b` in an attribute value is written with a literal CR byte,
+    which the parser's newline normalisation turns into LF; `&#0;` is written as a literal NUL -/
+theorem entities_preserve_ctl_counterexample :
+    decodeRefs true (replaceEntitiesCtx true "a&#13;b".toList) ≠ decodeRefs true "a&#13;b".toList ∧
+    decodeRefs false (replaceEntitiesCtx false "a&#0;b".toList) ≠ decodeRefs false "a&#0;b".toList := by
+  decide +kernel
+
+/-- the guard `hexOverflow` is needed (K-C03-3): Go accumulates the hexadecimal value in a wrapping `int` -/
+theorem entities_preserve_overflow_counterexample :
+    decodeRefs true (replaceEntitiesCtx true "&#x8000000000000041;".toList) = [.lit 'A'] ∧
+    decodeRefs true "&#x8000000000000041;".toList = [.cp 0xFFFD] := by
+  decide +kernel
 
 end Verif.Props.C03
